@@ -70,6 +70,8 @@ type TrackFactory struct {
 	// Fault, if set, is asked before every creation; returning true makes it fail the way
 	// protectedmemory fails early (before the source slice is wiped).
 	Fault      func(kind string, index int) bool
+	// FaultMode 1: every creation is a Choose point {ok, fail}
+	FaultMode  int
 	NewCalls   int
 	RandCalls  int
 	UseAfterClose []string
@@ -97,7 +99,7 @@ func (f *TrackFactory) New(b []byte) (securememory.Secret, error) {
 	idx := f.NewCalls
 	f.NewCalls++
 	f.NewSources = append(f.NewSources, b)
-	if f.Fault != nil && f.Fault("New", idx) {
+	if (f.Fault != nil && f.Fault("New", idx)) || (f.FaultMode == 1 && vsched.Choose(2, "secret.New") != 0) {
 		return nil, errAlloc
 	}
 	s := &TrackSecret{ID: len(f.Secrets), Kind: "new", F: f, bytes: append([]byte{}, b...), Creator: vsched.CurThread()}
@@ -113,7 +115,7 @@ func (f *TrackFactory) New(b []byte) (securememory.Secret, error) {
 func (f *TrackFactory) CreateRandom(size int) (securememory.Secret, error) {
 	idx := f.RandCalls
 	f.RandCalls++
-	if f.Fault != nil && f.Fault("CreateRandom", idx) {
+	if (f.Fault != nil && f.Fault("CreateRandom", idx)) || (f.FaultMode == 1 && vsched.Choose(2, "secret.CreateRandom") != 0) {
 		return nil, errAlloc
 	}
 	if size < 1 {
